@@ -317,3 +317,131 @@ theorem lag_to_lagW (P : Prog) (c d : Cfg) (h : Lag P c d) (hI : Inv c) (fn wf :
       stepBodyK_waiting_pending P _ d0 fn wf' none aw hst' hdw]
   rw [hd']
   exact ⟨hap, by rw [hst]; rfl, hm.stepping, hm.int, inStep_onWait_intro c d0 hm fn wf wf' wk aw hst hst'⟩
+
+/-! ### a tick while held on a wait -/
+
+/-- the tick wakes the stepping task from a released pause future and starts the next step -/
+def runsBody (c : Cfg) : Bool :=
+  match c.pc with
+  | .awaitPaused pf =>
+      c.pfs[pf]? == some true &&
+        (match c.paused with
+         | some pf' => !(c.pfs[pf']? == some false)
+         | none => true)
+  | _ => false
+
+theorem tickStepper_runsBody (P : Prog) (c : Cfg) (h : runsBody c = true) : tickStepper P c = stepBody P fuel0 c := by
+  unfold runsBody at h
+  unfold tickStepper
+  split at h
+  · rename_i pf hpc
+    rw [hpc]
+    simp only [Bool.and_eq_true, beq_iff_eq] at h
+    dsimp only
+    rw [if_pos h.1]
+    split
+    · rename_i pf' hpa
+      rw [hpa] at h
+      have h2 := h.2
+      simp only [Bool.not_eq_true', beq_eq_false_iff_ne, ne_eq] at h2
+      rw [if_neg h2]
+    · rfl
+  · cases h
+
+theorem tickStepper_not_runsBody (P : Prog) (c : Cfg) (hap : isAwaitPaused c.pc = true) (h : runsBody c = false) :
+    tickStepper P c = c ∨ ∃ pf', tickStepper P c = { c with pc := .awaitPaused pf' } := by
+  unfold runsBody at h
+  unfold tickStepper
+  split at h
+  · rename_i pf hpc
+    rw [hpc]
+    dsimp only
+    by_cases h1 : c.pfs[pf]? = some true
+    · rw [if_pos h1]
+      simp only [h1, beq_self_eq_true, Bool.true_and] at h
+      split
+      · rename_i pf' hpa
+        rw [hpa] at h
+        simp only [Bool.not_eq_false', beq_iff_eq] at h
+        rw [if_pos h]
+        exact Or.inr ⟨pf', rfl⟩
+      · rename_i hpa
+        rw [hpa] at h; cases h
+    · rw [if_neg h1]; exact Or.inl rfl
+  · rename_i hne
+    cases hpc : c.pc with
+    | awaitPaused pf => exact absurd hpc (hne pf)
+    | _ => rw [hpc] at hap; cases hap
+
+theorem runsBody_paused (c : Cfg) (hinv : InvP c) (hl : terminal c.st.label = false) (h : runsBody c = true) :
+    c.paused = none := by
+  cases hp : c.paused with
+  | none => rfl
+  | some pf' =>
+    have := hinv.pausedPending hl pf' hp
+    unfold runsBody at h
+    split at h
+    · rw [hp] at h
+      simp [this] at h
+    · cases h
+
+theorem onWait_eq_of_paused_none (c : Cfg) (fn wf : Nat) (wk aw) (hst : c.st = .waiting fn wf wk aw)
+    (hp : c.paused = none) : onWait c = { c with stepping := true, pc := .awaitWaiting wf } := by
+  rw [onWait_waiting c fn wf wk aw hst]
+  cases c
+  simp only at hp
+  subst hp
+  rfl
+
+/-- a tick while held on a wait: nothing or re-suspension on a newer pause future (the reference run does not tick), or —
+released — the wait is resumed by both runs -/
+theorem tick_lagW (P : Prog) (c d : Cfg) (h : LagW c d) (hinv : InvP c) :
+    (runsBody c = false → LagW (tickStepper P c) d) ∧
+    (runsBody c = true → tickDone P d = true → SL P (tickStepper P c) (tickStepper P d)) := by
+  constructor
+  · intro hr
+    rcases tickStepper_not_runsBody P c h.pc hr with e | ⟨pf', e⟩
+    · rw [e]; exact h
+    · rw [e]
+      exact ⟨rfl, h.wait, h.stepping, h.int, by rw [onWait_setPc c _ h.wait]; exact h.view⟩
+  · intro hr hD
+    rw [tickStepper_runsBody P c hr]
+    cases hst : c.st with
+    | waiting fn wf wk aw =>
+      have hl : terminal c.st.label = false := by rw [hst]; simp [SObj.label, terminal, allowed]
+      have hp := runsBody_paused c hinv hl hr
+      have hv := h.view
+      have hstv : (onWait c).st = .waiting fn wf wk aw := by rw [onWait_waiting c fn wf wk aw hst]; exact hst
+      have hwfs : (onWait c).wfs = c.wfs := by rw [onWait_waiting c fn wf wk aw hst]
+      obtain ⟨wf', w, hwk, hst', hcw, hdw, hni⟩ := hv.core.st.waiting_inv hstv
+      rw [hwfs] at hcw
+      have hpcv : (onWait c).pc = .awaitWaiting wf := by rw [onWait_waiting c fn wf wk aw hst]
+      have hpd : d.pc = .awaitWaiting wf' := by
+        have := hv.pc
+        rw [hpcv] at this
+        obtain ⟨fn0, wk0, aw0, wf0, _, h2, h3⟩ := this
+        rw [hst'] at h2; cases h2; exact h3
+      have hpcc : ∃ pf, c.pc = .awaitPaused pf := by
+        cases hpc : c.pc with
+        | awaitPaused pf => exact ⟨pf, rfl⟩
+        | _ => have := h.pc; rw [hpc] at this; cases this
+      obtain ⟨pf, hpc⟩ := hpcc
+      unfold stepBody
+      by_cases hwp : w = .pending
+      · subst hwp
+        rw [stepBodyK_waiting_pending P _ c fn wf wk aw hst hcw, tickStepper_wait_pending P d wf' hpd hdw,
+          ← onWait_eq_of_paused_none c fn wf wk aw hst hp]
+        exact Or.inl hv
+      · rw [stepBodyK_waiting_done P _ c fn wf wk aw w hst hcw hwp,
+          tickStepper_wait_done P d fn wf' none aw w hpd hst' hdw hwp]
+        rw [tickDone_wait_done P d fn wf' none aw w hpd hst' hdw hwp] at hD
+        have hcore : Core { c with stepping := true } d := by
+          have := hv.core
+          rw [onWait_waiting c fn wf wk aw hst] at this
+          exact ⟨this.sh, this.st, this.ckill, this.dint, this.dpaused⟩
+        have he := wake_core { c with stepping := true } d fn wf wf' w hcore (IntOk.of_none h.int) hni hwp
+        exact loopHead_sim P fuel0 fuel0 _ _ (Nat.le_refl _) (Nat.le_refl _)
+          (mid_of_end he (by intro e he; rw [show ({ c with stepping := true } : Cfg).pc = c.pc from rfl, hpc] at he; cases he)
+            (by intro e he; rw [hpd] at he; cases he))
+          (wake_invP _ _ _ _ (hinv.same ⟨rfl, rfl, rfl, rfl⟩)) hD
+    | _ => have := h.wait; rw [hst] at this; cases this
